@@ -439,3 +439,35 @@ func everyPathPasses(fn *ssa.Function, through map[*ssa.BasicBlock]bool, target 
 	}
 	return !walk(fn.Blocks[0])
 }
+
+// roleField returns the name of the field of struct type n that plays a role identified by its type
+// (rendered with full package paths, e.g. "*bufio.Reader", "io.Writer", "int64"): the only field of that
+// type, or else the field with the conventional name if it exists. Unexported field names are not part of
+// any contract, so the checks find such fields by type.
+func roleField(n *types.Named, typeStr, conventional string) string {
+	s := structOf(n)
+	if s == nil {
+		return conventional
+	}
+	var hits []string
+	for i := 0; i < s.NumFields(); i++ {
+		if types.TypeString(s.Field(i).Type(), nil) == typeStr {
+			hits = append(hits, s.Field(i).Name())
+		}
+	}
+	if len(hits) == 1 {
+		return hits[0]
+	}
+	for _, h := range hits {
+		if h == conventional {
+			return h
+		}
+	}
+	if fieldIndex(s, conventional) >= 0 {
+		return conventional
+	}
+	if len(hits) > 0 {
+		return hits[0]
+	}
+	return conventional
+}
